@@ -655,8 +655,11 @@ def run_variation_child(var: dict, calls_by_id: dict, tape_values=None) -> dict:
         # and the very same call served twice
         for pid_ in var["probes"]:
             c0 = calls_by_id[pid_]
+            # choices about a probe's companions come from a tape of their own (keyed by the probe), so that dropping OTHER
+            # probes while minimising does not change them
+            ptape = Tape(derive_seed(int(var["tape"].get("seed", 0) or 0), PROP, "companions", pid_))
             if sib in ("same_text", "both") and c0.get("text"):
-                k_ = tape.choose(3, "sib.kind")
+                k_ = ptape.choose(3, "sib.kind")
                 base = {"doc_kind": c0.get("doc_kind"), "text": c0["text"], "schema": c0.get("schema", "META")}
                 if k_ == 0:
                     hist.append(dict(base, id=500000 + pid_, api="tool.write", mode="content", initial=None,
@@ -670,10 +673,8 @@ def run_variation_child(var: dict, calls_by_id: dict, tape_values=None) -> dict:
             if sib == "near_twin" and c0.get("text"):
                 # the SAME call on an almost identical text (another normalisation form, case, whitespace): whatever the
                 # process remembers about the twin must not leak into the answer for the probe
-                for rep in range(2):
-                    tw = c06_calls.near_twin(tape, c0["text"])
-                    if tw is not None:
-                        hist.append(dict(c0, id=650000 + pid_ * 2 + rep, text=tw))
+                for rep, tw in enumerate(c06_calls.near_twins(c0["text"])):
+                    hist.append(dict(c0, id=650000 + pid_ * 8 + rep, text=tw))
     if var.get("nasty_history"):
         hist = hist + NASTY
         hist = tape.shuffle(hist, "hist.order")
